@@ -104,6 +104,17 @@ def checkImage (img : Image) (expected : List (ByteArray × ByteArray × Nat)) :
     pure (t.full, t.tomb, mp) : Except String (Nat × Nat × Nat))
   pure s!"ok keys={st.keys} leaves={st.leaves} branches={st.branches} overflow_pages={st.overflowPages} ln_free={st.lnFree} bbn_free={st.bbnFree} ln_leaked={st.lnLeaked} bbn_leaked={st.bbnLeaked} ht_full={full} ht_tomb={tomb} merkle_pages={mp} rollback_records={nrec} wal={walState}"
 
+/-- C19: the occupancy the API reported at this point must equal the number of full buckets -/
+def checkOccupied (o : String) (occ : Option ByteArray) : String :=
+  match occ with
+  | none => o
+  | some ob =>
+    let reported : Option Nat := (String.fromUTF8? ob).bind (fun t => t.trimAscii.toString.toNat?)
+    let full : Option Nat := (String.ofList (((o.splitOn "ht_full=").getD 1 "").toList.takeWhile Char.isDigit)).toNat?
+    if (o.splitOn "wal=pending").length > 1 then o
+    else if reported == full then o ++ s!" occupied={reported.getD 0}"
+    else s!"bad occupancy: hash_table_utilization().occupied = {reported} but the table holds {full} full buckets"
+
 def imageLine (line : String) : IO String := do
   match fields line with
   | ["check", dir, expf] =>
@@ -115,7 +126,10 @@ def imageLine (line : String) : IO String := do
       | none => pure "bad expected-state file: not utf-8"
       | some s =>
         match parseExpected s >>= checkImage img with
-        | .ok o => pure o
+        | .ok o =>
+          -- C19: the occupancy the API reported at this point must equal the number of full buckets
+          let occ ← readOr (dir ++ "/occupied.txt")
+          pure (checkOccupied o occ)
         | .error e => pure s!"bad {e}"
   | _ => pure "bad unknown command"
 
